@@ -28,6 +28,15 @@ def run(path, timeout=600, rlimit=None):
         m = re.match(r'^\s*--> ([^:]+):(\d+):(\d+)', ln)
         if m and cur is not None:
             cur['spans'].append((m.group(1), int(m.group(2)), int(m.group(3))))
+            cur['_file'] = m.group(1)
+            continue
+        # labelled source lines of the snippet: `456 |   return x;` followed by `    |   -------- at this exit`
+        m = re.match(r'^\s*(\d+) \|', ln)
+        if m and cur is not None:
+            cur['_last_line'] = int(m.group(1)); continue
+        m = re.match(r'^\s*\| .*?[-^]+ (\S.*)$', ln)
+        if m and cur is not None and cur.get('_last_line'):
+            cur.setdefault('labels', []).append((cur['_last_line'], m.group(1).strip()))
     out['diags'] = diags
     errs = [d for d in diags if d['level'] == 'error' and not d['msg'].startswith('aborting due to')]
     out['errors'] = errs
@@ -52,9 +61,22 @@ def map_errors(b, res, path):
                 hit = (fn, label, props); break
         if hit is None:
             for (f, line, col) in d['spans']:
-                for (a, z, fn, props) in b.fn_ranges:
+                for (a, z, fn, props, lab) in b.fn_ranges:
                     if a <= line <= z:
-                        hit = (fn, fn.split('::')[-1] + '.safety', props); break
+                        hit = (fn, lab, props); break
                 if hit: break
-        out.append({'msg': d['msg'], 'spans': d['spans'], 'obligation': hit})
+        # the program point at which the obligation fails (exit / loop / call): text of the last span's line + its ordinal among
+        # identical lines of the same function -- robust against line shifts, distinguishes two `return`s of one function
+        site = None
+        secondary = [l for l in d.get('labels', []) if not l[1].startswith('failed this')]
+        if secondary and hit is not None:
+            lines = b.lines
+            ln = secondary[-1][0]
+            if 1 <= ln <= len(lines):
+                txt = lines[ln - 1].strip()
+                rng = [(a, z) for (a, z, fn, props, lab) in b.fn_ranges if a <= ln <= z]
+                a0 = rng[0][0] if rng else 1
+                k = sum(1 for x in lines[a0 - 1:ln] if x.strip() == txt)
+                site = '%s#%d' % (txt, k)
+        out.append({'msg': d['msg'], 'spans': d['spans'], 'obligation': hit, 'site': site})
     return out
